@@ -104,6 +104,9 @@ class SessGen(object):
                 it["bid"] = ("b%d" % i) if n > 1 else None
                 items.append(it)
         req = mkreq(v, items, maxsize=maxsize)
+        if self.r.random() < 0.08:
+            # a header Time Stamp: in range (accepted / stale / future) or anywhere in the signed 64-bit range
+            req["ts"] = self.ch([1000, 10 ** 9, 2 ** 60, -2 ** 60, 2 ** 63 - 1, -2 ** 63, 2 ** 56, 253402300800])
         if n_items(req) > 1:
             req["bopt"] = self.ch([None, 1, 2])
         try:
@@ -209,6 +212,20 @@ class SessGen(object):
                 for a in idx:
                     if a["type"] == 1 and a["off"] < e["off"] < a["end"]:
                         b[a["off"] + 4:a["off"] + 8] = (cut - a["off"] - 8).to_bytes(4, "big")
+        elif kind == "transparent":
+            # Key Material given as a STRUCTURE holding the key in a Key byte string (transparent key material) in place
+            # of the plain byte string; every enclosing length adjusted
+            ks = [e for e in inner if e["tag"] == 0x420043 and e["type"] == 8]
+            if ks:
+                e = ks[0]
+                val = bytes(b[e["off"] + 8:e["end"]])              # value + padding
+                inner_item = b"\x42\x00\x3f\x08" + e["len"].to_bytes(4, "big") + val
+                new = b"\x42\x00\x43\x01" + len(inner_item).to_bytes(4, "big") + inner_item
+                grow = len(new) - (e["end"] - e["off"])
+                b[e["off"]:e["end"]] = new
+                for a in idx:
+                    if a["type"] == 1 and a["off"] < e["off"] < a["end"]:
+                        b[a["off"] + 4:a["off"] + 8] = (a["len"] + grow).to_bytes(4, "big")
         elif kind == "emptystring":
             # a Text String / Byte String value made EMPTY (length 0, no value bytes), every enclosing length adjusted:
             # a legal encoding that constructors guarding against empty values never see - it arrives through read()
